@@ -269,8 +269,8 @@ fn run_history(sim: &mut Sim, pool: &[TlDesc], tl0: usize, two: bool, steps: &[(
 
 pub fn run(run: &mut Run) {
     let thorough = run.thorough();
-    let depth_d = if thorough { 7 } else { 5 };
-    let depth_o = if thorough { 4 } else { 3 };
+    let depth_d = if thorough { 8 } else { 6 };
+    let depth_o = if thorough { 5 } else { 4 };
     run.rule = format!(
         "real bevy App with AnimationPlugin and a hand-driven Time resource; timeline pool: delay {{0, 1/4, 1}} x cycle {{1/2, 1}} x \
         repeat {{None, Times(2), Infinite}} x reverse, plus a very short and a long-delayed timeline (38 timelines); ALL frame-delta \
@@ -294,12 +294,13 @@ pub fn run(run: &mut Run) {
     let op_tls = [0usize, 9, 20];
     let per = (ops_alpha.len() as u64 * 4).pow(depth_o as u32);
     let n_o = per * op_tls.len() as u64;
-    let n_r: u64 = if thorough { 20_000 } else { 600 };
+    let n_r: u64 = if thorough { 100_000 } else { 3_000 };
     run.extra.push(("delta_histories_exhaustive".into(), J::U(n_d)));
     run.extra.push(("operation_histories_exhaustive".into(), J::U(n_o)));
     run.extra.push(("random_histories".into(), J::U(n_r)));
     run.parallel(|w, nw, acc| {
         let mut sims: Vec<Sim> = (0..4).map(|o| Sim::new(o)).collect();
+        let mut mt_sim: Option<Sim> = None;
         for i in my_cases(rc, STREAM_DELTAS, n_d, w, nw) {
             let tl0 = (i % pool.len() as u64) as usize;
             let mut x = i / pool.len() as u64;
@@ -348,7 +349,14 @@ pub fn run(run: &mut Run) {
                 })
                 .collect();
             let two = r.chance(1, 2);
-            guarded(acc, "c18", STREAM_RANDOM, i, |acc| run_history(&mut sims[r.usize(4)], &pool, tl0, two, &steps, acc, STREAM_RANDOM, i, verbose));
+            let o = r.usize(4);
+            if i % 4 == 0 {
+                let sim = mt_sim.get_or_insert_with(|| Sim::with_executor((w % 4) as u8, true));
+                acc.count("histories_on_multi_threaded_executor", 1);
+                guarded(acc, "c18", STREAM_RANDOM, i, |acc| run_history(sim, &pool, tl0, two, &steps, acc, STREAM_RANDOM, i, verbose));
+            } else {
+                guarded(acc, "c18", STREAM_RANDOM, i, |acc| run_history(&mut sims[o], &pool, tl0, two, &steps, acc, STREAM_RANDOM, i, verbose));
+            }
         }
     });
     run.exhaustive = Some(false);
